@@ -1616,6 +1616,12 @@ pub fn run_scripted_cfg(out: &mut Out, prop: &str, name: &str, cfg: EpochCfg, st
 
 /// one random sequence of 1..=60 commands
 pub fn run_random_sequence(out: &mut Out, rng: &mut Rng, prop: &str, gen: &dyn Fn(&mut Rng, u64) -> Command, boundary_pct: u64) {
+    run_random_sequence_len(out, rng, prop, gen, boundary_pct, None)
+}
+
+/// `len` = number of commands (default: 1..=60); long histories (thousands of commands on the same
+/// executor: keys change type, expire, are recreated many times) use an explicit length
+pub fn run_random_sequence_len(out: &mut Out, rng: &mut Rng, prop: &str, gen: &dyn Fn(&mut Rng, u64) -> Command, boundary_pct: u64, len_override: Option<u64>) {
     let start = BASE_MS + rng.below(5000);
     let cfg = gen_epoch(rng);
     let mut s = reset_with_epoch(out, start, cfg);
@@ -1625,6 +1631,7 @@ pub fn run_random_sequence(out: &mut Out, rng: &mut Rng, prop: &str, gen: &dyn F
         1..=5 => rng.range(4, 20),
         _ => rng.range(21, 60),
     };
+    let len = len_override.unwrap_or(len);
     let mut seq: Vec<String> = Vec::new();
     if cfg != EpochCfg::Zero {
         seq.push(format!("config: {:?} (Unix time = virtual time + {} ms)", cfg, cfg.ms()));
@@ -1672,6 +1679,10 @@ pub fn run_random_sequence(out: &mut Out, rng: &mut Rng, prop: &str, gen: &dyn F
         };
         seq.push(format!("t={}{} {:?}{}", t, if evict { "" } else { " (clock only)" }, cmd, match s.via { Via::Execute => "", Via::Direct => " [via get_direct/set_direct]", Via::Read => " [via execute_read]" }));
         let so = do_step(out, &mut s, &cmd, prop, &seq);
+        if seq.len() > 400 {
+            // a long history: the replay keeps the configuration line and the last commands
+            seq.drain(1..200);
+        }
         canon.push_str(&so.op);
         canon.push('\n');
         if so.before != so.after {
@@ -1681,7 +1692,7 @@ pub fn run_random_sequence(out: &mut Out, rng: &mut Rng, prop: &str, gen: &dyn F
             informative += 1;
         }
     }
-    out.count(&format!("seq-len:{}", if len <= 3 { "1-3" } else if len <= 20 { "4-20" } else { "21-60" }));
+    out.count(&format!("seq-len:{}", if len <= 3 { "1-3" } else if len <= 20 { "4-20" } else if len <= 60 { "21-60" } else { "long" }));
     out.case(&canon, changed >= 1 && informative >= 1);
     out.sample(json!({"sequence": seq}));
 }
@@ -1708,8 +1719,8 @@ pub fn audit_c01() -> serde_json::Value {
        "open": "SKIPLIST_MAXLEVEL = 32 needs about 4^31 inserts: covered by the theorems (any level <= 32) only"},
       {"class": 6, "topic": "fault kinds", "covered": "every call into the real code under catch_unwind; overflow checks on in the harness build", "open": "no I/O in scope"},
       {"class": 7, "topic": "history shapes",
-       "covered": "expired-but-unevicted keys (update_time_readonly), type changes on 5 colliding keys, emptied-then-refilled; sorted sets: long runs, level shrink back to 1, free-slot reuse, repeated updates",
-       "open": "executor sequences are <= 60 commands (+ boundary blocks); no persistence in scope"},
+       "covered": "expired-but-unevicted keys (update_time_readonly), type changes on 5 colliding keys, emptied-then-refilled, long histories of 1500 commands on one executor; sorted sets (also held by a real CommandExecutor, ZADD with every flag): long runs, level shrink back to 1, free-slot reuse, repeated updates",
+       "open": "no persistence in scope"},
       {"class": 8, "topic": "node-global state", "covered": "per-set rng_state compared after every step", "open": "math.randomseed(current_time) is C20; commands_processed feeds INFO only"},
       {"class": 9, "topic": "observations",
        "covered": "reply + keys / types / values / PTTL after every step; a sorted set's member map, skip list, length field and is_sorted() must describe the same set; the whole skip-list structure (heights, spans, header spans, level, length, rng_state) in the data driver",
